@@ -2355,7 +2355,15 @@ impl Rewrite for ast::Param {
 
             Ok(result)
         } else {
-            self.ty.rewrite_result(context, shape)
+            let ty_str = self.ty.rewrite_result(context, shape)?;
+            combine_strs_with_missing_comments(
+                context,
+                &param_attrs_result,
+                &ty_str,
+                span,
+                shape,
+                !has_multiple_attr_lines && !has_doc_comments,
+            )
         }
     }
 }
